@@ -68,6 +68,27 @@ CHECKS = {
         note="Trusted: TLC, harness VCF writer, harness/gen_db.py. Left-normalised equivalents of indels in repeats are not asserted.",
         engine="VcfInput",
     ),
+    "C01": dict(
+        technique="TLA+ spec of the planted-genotype contract (Planted.tla on top of CNModel: the precondition 'the planted structure is an optimal explanation of the recorded depths' is decided by TLC, then the reported solutions must contain the planted structure, major alleles and variant multiset); PlantedTrace.tla validation of real genotype() runs on error-free reads simulated from random catalogued genotypes; the same runs are validated as Pipeline behaviours by PipelineTrace.tla",
+        text="Each case = a random admissible multiset of 1-4 catalogued alleles (default, fused, whole-gene deletion, extra copies; SNP/MNP/insertion/deletion alleles) of generated databases on + and - strand builds, simulated error-free as tiled reads, genotyped end to end by the real genotype(); TLC decides precondition and conclusion per run (ties are NA, never alarms) and rejects planted canaries.",
+        design_ref="DESIGN.md §4 C01",
+        note="Trusted: TLC, harness/gen_reads.py (cross-checked by C06/C07), harness/gen_db.py. Alleles defined by delXinsY or neutral multi-base substitutions are not planted (outside the property's variant kinds); one known finding (two catalogued indels within 25 bp on one haplotype).",
+        engine="Planted",
+    ),
+    "C13": dict(
+        technique="TLA+ spec of one abstract catalogue and one abstract evidence table transported to two genome builds of opposite strand and different offset (BuildIndep.tla instantiating CNModel/MajorModel/MinorModel per build); TLC exhaustive (MC_BuildIndep + hazard configs that must violate BuildFree); BuildTrace.tla validation of paired real runs (stage calls and genotype()) on both builds, every stage event also validated by CNTrace/MajorTrace/MinorTrace",
+        text="TLC checks BuildFree / AnchorAgrees / RegionOrderIsGeneOrder over all small evidence tables of a catalogue mapped to + and - strand builds; families of real executions (RefSeq-level evidence placed on each build independently of aldy; simulated alignments against each build; shipped hg19/hg38 and generated opposite-strand databases) are validated pairwise: structures, major/minor alleles, scores and added/lost variants in RefSeq terms must coincide.",
+        design_ref="DESIGN.md §4 C13",
+        note="Trusted: TLC, harness/gen_db.py Mapper (independent transport), harness/gen_reads.py. Alignment-level minor scores with phasing on are UNDECIDED inside a stated band.",
+        engine="BuildIndep",
+    ),
+    "C14": dict(
+        technique="TLA+ spec of operation histories over a loaded database, evidence and a write-only debug store (History.tla: operations as pure functions); TLC exhaustive over histories of length <= 5 (MC_History + five hazard configs that must violate the named property); TLC-generated histories (HistoryGen) replayed into the real code (fresh processes with other hash seeds, multi-gene runs, accessors, writers, query) and validated by HistoryTrace.tla with deep digests after every operation",
+        text="TLC checks Deterministic, DbUntouched, EvUntouched, MultiIsUnionOfSingles, RefinementIndependent, StoreIsWriteOnly and EqualsFreshLoad on all histories of 16 operations up to length 4-5; all spec-enumerated length-2 histories and sampled length 3-6 histories over simulated, synthetic and real-data worlds are executed against real aldy, every result compared with the first result of the same call and every live Gene/Coverage digested against a fresh load; candidate-list orderings/subsets for the minor stage.",
+        design_ref="DESIGN.md §4 C14",
+        note="Trusted: TLC, harness/c14_digest.py (hash-seed independent digests), harness/c14_world.py. Hash seeds 0-7 only; two by-design dependencies of the refinement on co-candidates are known findings.",
+        engine="History",
+    ),
     "C19": dict(
         technique="TLA+ state machine of the no-data guards over routes and output kinds (Guards.tla); TLC exhaustive (MC_Guards) incl. design-level counterexamples realised as BAMs; GuardsTrace.tla validation of real genotype() runs on simulated no-data samples",
         text="TLC explores guards x routes x outputs x facts; real runs on BAMs that avoid the locus, cover it below the minimum, cover only the pseudogene or avoid the neutral region (BAM profile, named profile, user structure; aldy/vcf/simple outputs; multi-gene) are validated against NoCallFromNoData, ErrorIsExplained, SimpleOutputEmptyLine, PseudogeneOnlyIsDeletion.",
@@ -126,6 +147,9 @@ CHECKS = {
 }
 
 ENGINES = [
+    dict(name="Planted", path="spec/Planted.tla", serves_properties=["C01"], kind_free_text="TLA+ planted-genotype contract over CNModel; trace/PlantedTrace (+ trace/PipelineTrace on the same runs)"),
+    dict(name="BuildIndep", path="spec/BuildIndep.tla", serves_properties=["C13"], kind_free_text="TLA+ two-build transport of one abstract catalogue/evidence through the three stage models; mc/MC_BuildIndep (+ hazard and probe configs), trace/BuildTrace"),
+    dict(name="History", path="spec/History.tla", serves_properties=["C14"], kind_free_text="TLA+ operation histories (purity, isolation, determinism); mc/MC_History (+ 5 hazard configs), gen/HistoryGen, trace/HistoryTrace"),
     dict(name="Aldy", path="spec/Aldy.tla", serves_properties=["C10", "C19"], kind_free_text="TLA+ composition of Guards and Pipeline by joint actions; mc/MC_Aldy (+ anti-vacuity configs), run by C10 thorough"),
     dict(name="DumpReplay", path="spec/DumpReplay.tla", serves_properties=["C17"], kind_free_text="TLA+ dump snapshot/restore; mc/MC_DumpReplay, trace/DumpTrace"),
     dict(name="Pileup", path="spec/Pileup.tla", serves_properties=["C06"], kind_free_text="TLA+ pileup (operational + declarative); PileupDefs, mc/MC_Pileup, gen/PileupGen, trace/PileupTrace"),
